@@ -38,6 +38,10 @@ def systems(rng):
     a.append("ecp 0 3 2 0 %r %r 2 1 %r %r 2 2 %r %r" % (rng.uniform(0.5, 3), rng.uniform(1, 8), rng.uniform(0.5, 3), rng.uniform(-5, 5), rng.uniform(0.3, 2), rng.uniform(-2, -0.2)))
     a.append("ecp 2 2 2 0 %r %r 2 1 %r %r" % (rng.uniform(0.5, 3), rng.uniform(1, 8), rng.uniform(0.3, 2), rng.uniform(-2, -0.2)))
     out.append(("indep", a, 3, ["S0", "S1", "S2", "E0", "E1", "E2", "I", "D1", "D2"], None))
+    # A': the same system with the ECPs listed in the opposite order to the atoms' first appearance among the shells
+    # (the documented interface leaves the order of the ECP list free)
+    a2 = [l for l in a if not l.startswith("ecp ")] + [l for l in reversed(a) if l.startswith("ecp ")]
+    out.append(("indep-ecp-order", a2, 3, ["S0", "S1", "S2", "E0", "E1", "E2", "I", "D1", "D2"], None))
     # B: two atoms with shells and ECPs, always moved together (macro M<g> = S<g> E<g>)
     b = ["reset", "atoms 2"]
     geo = [((0, 0, 0), (0.0, 0.3, 2.1)), ((0.4, -0.1, 0.2), (1.5, 1.4, -0.3)), ((0, 0, 0), (16.0 + rng.uniform(0, 2), 0.5, 0.2))]
@@ -56,6 +60,15 @@ def histories(alphabet, exhaustive_len, n_random, max_len, rng):
     for L in range(1, exhaustive_len + 1):
         hs.extend(list(h) for h in itertools.product(alphabet, repeat=L))
     comp = [a for a in alphabet if a in ("I", "D1", "D2")]
+    # two-phase histories: update, compute, update, compute (and with a compute first) for EVERY pair of updates and computes:
+    # what one phase leaves behind (caches, flags, lists built for the first geometry) meets a geometry it was not built for
+    upd = [a for a in alphabet if a not in comp]
+    for u1 in upd:
+        for u2 in upd:
+            for c1 in comp:
+                for c2 in comp:
+                    hs.append([u1, c1, u2, c2])
+            hs.append(["I", u1, "I", u2, "I"])
     for _ in range(n_random):
         L = rng.randint(exhaustive_len + 1, max_len)
         h = [rng.choice(alphabet) if rng.random() < 0.6 else rng.choice(comp) for _ in range(L)]
